@@ -470,8 +470,8 @@ class Scalar(Qube):
                 try:
                     func_values = np.arccos(self._values_)
                 except RuntimeWarning:
-                    raise ValueError('Scalar.arccos() of value outside domain '
-                                     '(-1,1)')
+                    func_values = self._func_of_unmasked(np.arccos, 0.,
+                            'Scalar.arccos() of value outside domain (-1,1)')
 
             obj = Scalar(func_values, mask=self._mask_)
 
